@@ -67,7 +67,7 @@ def run(chk, which="C13"):
     rnd = core.rng("c13", tier)
     names = sorted(units)
     extra = []
-    n_extra = 12 if tier == "quick" else 60
+    n_extra = 20 if tier == "quick" else 60
     while len(extra) < n_extra:
         t = model.gen_tree(rnd, names, rnd.choice([1, 2, 2]))
         if model.count_leaves(t) > 5:
